@@ -20,7 +20,10 @@
            revalidation. The code additionally forgets every flow when rulesVersion wraps from 65535 to 0, which
            cuts flows the rules still allow: known finding F25, signature reload-version-wrap; the theorems
            (props/C19.v) are proved for the code's behaviour (flow_ok true) and the two specifications agree on
-           every history without a wrap (C19_history_spec_as_stated). *)
+           every history without a wrap (C19_history_spec_as_stated).
+           With a cache (CHistC) the specification is FwReload.cflow_ok: additionally a flow that the TABLE honoured
+           since the last tick of the cache ticker passes (the documented staleness of one cache period), and
+           nothing else does - in particular not a flow that was refused since that tick. *)
 From Coq Require Import List ZArith NArith Bool.
 Import ListNotations.
 From NV Require Import lib.Corr model.Wheel model.Conntrack model.FwReload.
@@ -59,7 +62,10 @@ Inductive cev :=
 | CN (installed : bool).                                         (* a reload with an unchanged configuration *)
 
 Inductive case :=
-| CHist (rs0 v0 : N) (tcp udp def : Z) (tab : list row) (h : list cev) (obs : list N).
+| CHist (rs0 v0 : N) (tcp udp def : Z) (tab : list row) (h : list cev) (obs : list N)
+  (* the same with a routine-local conntrack cache handed to every Drop: a real firewall.ConntrackCacheTicker of
+     the given period started at the beginning of the history (instant 0) *)
+| CHistC (period : Z) (rs0 v0 : N) (tcp udp def : Z) (tab : list row) (h : list cev) (obs : list N).
 
 Fixpoint to_ev (h : list cev) : list ev :=
   match h with
@@ -103,4 +109,15 @@ Definition check_case (c : case) : list N :=
       ++ flag 1 (forallb (fun o => negb (N.eqb o 3)) obs)
       ++ flag 1 (blist_eqb model impl)
       ++ flag 2 (forallb (fun f => flow_ok al ao false f (spec_boot rs0 v0 tcp udp def 0%Z) hh impl) (dedup (tuples_of hh)))
+  | CHistC period rs0 v0 tcp udp def tab h obs =>
+      let al := tab_allowed tab in
+      let ao := tab_addr_ok tab in
+      let hh := to_ev h in
+      let impl := map (fun o => N.eqb o 0) obs in
+      let model := cverdicts al ao hh (cboot (boot rs0 v0 tcp udp def 0%Z) period) in
+      flag 1 (static_ok tab rs0 h)
+      ++ flag 1 (forallb (fun o => negb (N.eqb o 3)) obs)
+      ++ flag 1 (blist_eqb model impl)
+      ++ flag 2 (forallb (fun f => cflow_ok al ao false f (cspec_boot (spec_boot rs0 v0 tcp udp def 0%Z) period) hh impl)
+                         (dedup (tuples_of hh)))
   end.
